@@ -259,6 +259,33 @@ def run_case(ctx, case):
                 # continuation / bracket line that starts at or left of the column of the enclosing def/class keyword
                 shape = "column-not-right-of-def-column"
             devs.append(("get_context-" + shape, where + " expected %s" % (expect_body,)))
+        # get_context is a function of (text, position): a column sweep on the ONE Script above (an editor asking on every
+        # cursor movement) must give, position by position, what a Script that was asked nothing else gives. Swept: every
+        # column of some def/class/async keywords and '@' (header positions, whose answer the oracle above leaves open),
+        # and the columns 0..indentation+4 of some blank and comment-only lines.
+        sweep = []
+        kw = [t for t in toks if t.type == tokenize.NAME and t.string in ("def", "class", "async") or t.type == tokenize.OP and t.string == "@"]
+        for t in kw[case["offset"] % 3::3][:8]:
+            sweep += [(t.start[0], cc) for cc in range(t.start[1], t.end[1] + 1)]
+        src_lines = text.split("\n")
+        quiet = [i + 1 for i, ln in enumerate(src_lines) if (not ln.strip() or ln.lstrip().startswith("#")) and "\r" not in ln and "\x0c" not in ln]
+        code_lines_ = {t.start[0] for t in toks if t.type not in (tokenize.COMMENT, tokenize.NL, tokenize.NEWLINE, tokenize.INDENT, tokenize.DEDENT)} | \
+            {ln_ for t in toks if t.type == tokenize.STRING for ln_ in range(t.start[0], t.end[0] + 1)}
+        quiet = [ln_ for ln_ in quiet if ln_ not in code_lines_]
+        for ln_ in quiet[case["offset"] % 4::4][:6]:
+            width = len(src_lines[ln_ - 1])
+            prev_ind = max([len(l_) - len(l_.lstrip()) for l_ in src_lines[max(0, ln_ - 6):ln_ - 1] if l_.strip()] or [0])
+            sweep += [(ln_, cc) for cc in range(min(width, prev_ind + 4), -1, -4) if cc <= width]
+        for pos in sweep:
+            try:
+                shared = _ctx_key(s.get_context(pos[0], pos[1]))
+                alone = _ctx_key(boot.fresh_script(text, path=str(path), project=jedi.Project(str(root), sys_path=None)).get_context(pos[0], pos[1]))
+            except ValueError:
+                continue
+            ctx.cls("sweep-position")
+            if shared != alone:
+                devs.append(("get_context-depends-on-earlier-queries", "at %s: Script with earlier get_context calls -> %s, Script asked nothing else -> %s" % (pos, shared, alone)))
+                break
         # parent() chains and full_name of definitions
         modname = s.get_context(1, 0).name if text.strip() else None
         # definitions come from get_names and from goto at attribute accesses (definitions reached through a value,
